@@ -66,7 +66,7 @@ int main(int argc, char **argv) {
         _exit(4);
       fclose(stderr);
       stderr = fopen("/dev/null", "w");
-      alarm(10);
+      alarm(5);
       run_one();
     }
     int status = 0;
